@@ -374,6 +374,8 @@ macro_rules! types {
 
 types! {
   rw: [
+    "CryptDict" => pdf::crypt::CryptDict,
+    "CryptFilter" => pdf::crypt::CryptFilter,
     "LZWFlateParams" => pdf::enc::LZWFlateParams,
     "DCTDecodeParams" => pdf::enc::DCTDecodeParams,
     "CCITTFaxDecodeParams" => pdf::enc::CCITTFaxDecodeParams,
@@ -478,8 +480,6 @@ types! {
     "Vec<u32>" => Vec<u32>,
   ],
   r: [
-    "CryptDict" => pdf::crypt::CryptDict,
-    "CryptFilter" => pdf::crypt::CryptFilter,
     "ObjStmInfo" => ObjStmInfo,
     "OutlineItem" => OutlineItem,
   ]
